@@ -12,10 +12,9 @@ def rep(a, b, n=-1):
 rep("package ipfix\n", "package netflow9\n", 1)
 rep("// Decode runner for the IPFIX properties (C01 C02 C03 C04 C05 C09 C11)",
     "// GENERATED from drivers/ipfix/decode_verif_test.go by harness/gen_driver_v9.py - edit that.\n// Decode runner for the NetFlow v9 properties (C01 C02 C04 C05 C06 C09 C11)")
-rep('''	"time"
-)''', '''	"time"
-
-	"github.com/EdgeCast/vflow/ipfix"
+rep('''	"github.com/EdgeCast/vflow/reader"
+)''', '''	"github.com/EdgeCast/vflow/ipfix"
+	"github.com/EdgeCast/vflow/reader"
 )''', 1)
 rep('''type vHdr struct {
 	Ver  int   `json:"ver"`
